@@ -897,6 +897,22 @@ func (r *heapRun[T]) apply(op HOp) string {
 		return ""
 	case "set":
 		return r.doSet(op.Vs)
+	case "setRm":
+		// Set, then Peek(i) and Remove(i) at an offset > 0 as the very first
+		// calls after it (no Front / Each / Len in between): a queue that puts
+		// off the reordering until the next call must still remove the element
+		// Peek showed
+		if msg := r.doSet(op.Vs); msg != "" {
+			return msg
+		}
+		if m := len(r.held); m >= 2 {
+			a := op.A
+			if a < 0 {
+				a = -a
+			}
+			return r.doPop(1+a%(m-1), true)
+		}
+		return ""
 	case "setSame": // new elements with the values of the current contents, slot by slot (or mirrored)
 		var vs []int
 		for _, x := range r.contents() {
